@@ -21,6 +21,7 @@ import pfimport  # noqa: F401
 from pfimport import exc_enum
 from pipefunc import PipeFunc, Pipeline
 
+import c09_deep
 import c09_ext
 import c09_mapseq
 import c09_race
@@ -50,7 +51,12 @@ RULE = ("random DAGs of 1-4 term-building functions (tuple outputs, shared roots
         "WHOLE upstream mapspec array as a non-indexed parameter (hand families + rejection-sampled mapgen cases), inputs equal / changed in values "
         "with equal length (all elements or one) / changed in length, storage dict | file_array | shared_memory_dict, run_folder reused | fresh | none, "
         "every cache type (lru/hybrid also shared, disk also without its LRU front), sequential and thread pool; the model (runRuns, entry map.hist) "
-        "says which element calls of which run execute.  A history is "
+        "says which element calls of which run execute.  SUPPLIED INTERMEDIATES AT ANY DISTANCE (harness/c09_deep.py): an exhaustive family on spines "
+        "x->a->b->c / x->a->b->c->d whose last (and middle) function takes the root too - every non-empty cached subset x all four cache types x every pair "
+        "(thorough: triple) of calls over (root value) x (set of supplied intermediates, 1-3 hops above the cached function) x full_output with at least one "
+        "plain call and one with an intermediate; random DAGs with a spine of 3-5 functions sharing roots along the spine, whose histories repeat an earlier "
+        "call with the SAME root values and one more / fewer supplied intermediates (operator toggle_intermediate, also used with p=0.12 in the ordinary "
+        "random histories and with p=0.4 in the neighbourhood search after a disagreement with the model).  A history is "
         "non-trivial when the model reports at least one cache hit; distinct by (pipeline, cached set, history)")
 ASSUMPTIONS = ["the cache containers are black boxes that keep what was put while below their size limit (C14); LRUCache(max_size=n) is "
                "modelled by the recency-list policy PF.PipeCache.lruPolicy n (= C14's Recency, which C14 proves the LRUCache refines)",
@@ -66,6 +72,8 @@ ASSUMPTIONS = ["the cache containers are black boxes that keep what was put whil
                "cannot be ordered and object arrays of unhashable elements passed whole (C15's known findings) are not generated"]
 
 CACHE_KINDS = ["simple", "lru", "hybrid", "disk"]
+DEEP_KINDS = [{"type": "simple"}, {"type": "lru", "kwargs": {"shared": False}}, {"type": "simple"}, {"type": "hybrid", "kwargs": {"shared": False}},
+              {"type": "simple"}, {"type": "disk"}, {"type": "lru", "kwargs": {"shared": False}}]
 
 
 # ---------------------------------------------------------------------------------------------- building
@@ -210,8 +218,16 @@ def val(k, b):
     return {"s": f"v:{k}:{b}"}
 
 
-def gen_call(rng, pu, funcs, earlier):
+def gen_call(rng, pu, funcs, earlier, p_toggle=0.12, prefer_last=0.0):
     """A call step from the twin's own `arg_combinations` (so that it is valid by construction)."""
+    if earlier and rng.random() < p_toggle:
+        # an earlier call with the SAME root values and another set of supplied intermediates (any distance upstream): the pair
+        # "plain call / call with an intermediate" in either order is what `_intermediate_supplied` is about (seeded C09-s5-B)
+        c = c09_deep.toggle_intermediate(rng, funcs, rng.choice(earlier[-3:]))
+        if c is not None:
+            if rng.random() < 0.25:
+                c["full"] = not c["full"]
+            return c
     if earlier and rng.random() < 0.45:
         c = copy.deepcopy(rng.choice(earlier))
         r = rng.random()
@@ -226,6 +242,8 @@ def gen_call(rng, pu, funcs, earlier):
         return c
     outs = pipegen.all_outputs({"funcs": funcs})
     o = rng.choice(outs)
+    if rng.random() < prefer_last:
+        o = rng.choice([x for f in funcs[-2:] for x in f["outputs"]])      # deep stream: an output with a long way up
     try:
         combos = sorted(pu.arg_combinations(o))
     except Exception:  # noqa: BLE001
@@ -280,7 +298,7 @@ def gen_desc(rng):
     return pipegen.gen_dag(rng, max_funcs=rng.choice([1, 2, 2, 3, 3, 4, 4]), roots=rng.choice([1, 2, 2, 3]), p_bound=0.25, p_default=0.3)
 
 
-def gen_history(rng, desc, cached, cfg, base, length, p_mut, p_fail=0.0):
+def gen_history(rng, desc, cached, cfg, base, length, p_mut, p_fail=0.0, p_toggle=0.12, prefer_last=0.0):
     """Generate a history online (valid calls need the twin's current arg_combinations); returns the recorded case."""
     case = {"funcs": copy.deepcopy(desc["funcs"]), "cached": list(cached), "cache": cfg, "history": []}
     try:
@@ -308,7 +326,7 @@ def gen_history(rng, desc, cached, cfg, base, length, p_mut, p_fail=0.0):
                     dn = {d[0] for f in funcs for d in f["defaults"]}
                     c["kw"] = [e for e in c["kw"] if e[0] not in dn]
             else:
-                c = gen_call(rng, pu, funcs, earlier)
+                c = gen_call(rng, pu, funcs, earlier, p_toggle, prefer_last)
             if c is None:
                 continue
             if p_fail and c["kw"] and rng.random() < p_fail:
@@ -691,7 +709,7 @@ def search_neighbourhood(ctx, case, base, tries=40):
                     cand["history"].append(step)
                     cand["history"].append({"call": copy.deepcopy(rng.choice(earlier))})
                     continue
-            c = gen_call(rng, pu, funcs, earlier)
+            c = gen_call(rng, pu, funcs, earlier, 0.4)
             if c is not None:
                 cand["history"].append({"call": c})
         impl = run_history(cand, base)
@@ -995,6 +1013,29 @@ def run(ctx):
             dsand = rng.sample(dsand, min(len(dsand), 150))
         cases += dsand
         ctx.count("stream:defaults-sandwich-exhaustive", len(dsand))
+        # supplied intermediates at any distance: exhaustive family on spines of depth 3 / 4, all four cache types (seeded C09-s5-B)
+        deep = [] if only_random else list(c09_deep.deep_chain_cases(2 if ctx.tier == "quick" else 3, DEEP_KINDS))
+        if ctx.tier == "quick":
+            deep = rng.sample(deep, min(len(deep), 220))
+        elif len(deep) > 9000:
+            deep = rng.sample(deep, 9000)
+        cases += deep
+        ctx.count("stream:deep-chain-exhaustive", len(deep))
+        # ... and random DAGs with a spine of 3-5 functions whose later functions share roots with the earlier ones; histories in which
+        # every other call is an earlier call with another set of supplied intermediates and the same root values
+        for _ in range(ctx.n(45, 1500)):
+            desc = c09_deep.gen_deep_desc(rng)
+            names = [f["name"] for f in desc["funcs"]]
+            for _ in range(2):
+                sub = [n for n in names if rng.random() < 0.6] or [names[-1]]
+                cfg = copy.deepcopy(rng.choice(DEEP_KINDS))
+                case = gen_history(rng, desc, sub, cfg, base, rng.randint(3, 6), rng.choice([0.0, 0.0, 0.2]), 0.0, p_toggle=0.5, prefer_last=0.8)
+                if case is None:
+                    ctx.skip("history-not-generated")
+                    continue
+                case["family"] = "deep:random"
+                cases.append(case)
+                ctx.count("stream:deep-random")
         # random DAGs x every cached subset x cache kinds x histories
         n_dags = ctx.n(150, 5000)
         for d in range(n_dags):
